@@ -48,6 +48,8 @@ def png_bytes(seed):
 
 
 def data_bytes(seed):
+    if seed == 0:
+        return b""          # an empty data file is a file too
     return ("data-%d\n" % seed).encode() * (1 + seed % 3)
 
 
@@ -60,7 +62,7 @@ def gen_lib(rng, depth=0):
     for k in rng.sample(["com.a.k1", "com.a.k2", "org.b.flag", "public.x"], rng.randint(0, 2)):
         r = rng.random()
         if r < 0.3:
-            lib[k] = rng.randint(0, 5)
+            lib[k] = rng.randint(2, 6)       # not 0/1: Python's 1 == True makes lib[k] = 1 over True a silent no-op
         elif r < 0.5:
             lib[k] = "s%d" % rng.randint(0, 3)
         elif r < 0.7:
